@@ -23,6 +23,10 @@ CHECKS.update({
    text="S1: no mutable static storage and no stateful libc callee anywhere in the linked library. S2: interprocedural definite-initialisation dataflow at byte granularity over every stack and fixed-size heap object: each load, callee read-before-write, struct copy-out and constructor return is an obligation that the bytes were written on every path. Array cells (variable index) are not decided.",
    note=TB + "Callee summaries (upward-exposed reads, must-writes per return class) are specialised on constant integer arguments; exhaustive enum switches are assumed exhaustive only for objects received through parameters.",
    tech="static analysis: must-initialised dataflow with callee summaries + Mod-set analysis on LLVM IR"),
+ "C16": dict(engine="E-META (on E-UNINIT)", cat="other", ref="DESIGN.md 4/C16, 3/E-META",
+   text="For every function that writes a metadata struct (24 writer parameters today): every scalar field is definitely written on every success return (must-write per return class); the value stored to encodedSize/encodedBytes is, as a linear form over SSA values, the value the encoder returns; the count field receives the count argument; no field of a kind the property names is stored a literal constant on a success path for non-empty input. Numeric truth of min/max/run counts is NOT decided; header-reader/writer layout agreement (M4) is not built.",
+   note=TB + "In/out metadata parameters (FOR encoders) are exempt from M1 and covered by C15; 3 known findings (AdaptiveDecode encodedSize, AdaptiveReadMeta placeholders).",
+   tech="static analysis: out-parameter must-write dataflow + SSA linear-form equality on LLVM IR"),
 })
 NA = {
  "C02": "losslessness of array codecs is value-level equality after arithmetic; no clause has a shape in the code that static analysis can decide (DESIGN.md 4/C02)",
